@@ -129,16 +129,17 @@ theorem ofErr_panic {e : PErr ⊕ String} {s : String} (h : Outcome.ofErr e = .p
 /-- the shared tail of fn / mod / impl expansion -/
 theorem fnsPipeline_nopanic (kind : ReceiverKind) (mode : InputMode) (hm : mode ≠ .rawTrait) (opts : Opts)
     (sigs : List Sig) (traitRef : Toks) (ind : ImplIndirection) (subAttrs : List Attr) (k : List TraitFn → TraitGenerics → DepMode → GenImpl → Outcome)
-    (hk : ∀ fns tg d im s, k fns tg d im ≠ .panic s) (s : String) :
+    (hk : ∀ fns tg d im s, k fns tg d im ≠ .panic s) (s : String) (as : List (List Attr)) :
     (match analyzeFns kind opts sigs {} with
      | .error e => Outcome.ofErr e
      | .ok (fns, tg) =>
-       match detectDepMode mode fns with
+       match detectDepMode mode (attachCfg as fns) with
        | .error e => Outcome.ofErr e
        | .ok depMode =>
-         match genImplBlock opts traitRef ind tg mode depMode subAttrs fns with
+         match genImplBlock opts traitRef ind tg mode depMode subAttrs (attachCfg as fns) with
          | .error site => .panic site
-         | .ok im => k fns tg depMode im) ≠ .panic s := by
+         | .ok im => k (attachCfg as fns) tg depMode im) ≠ .panic s := by
+  simp only [detectDepMode_attachCfg]
   cases h2 : analyzeFns kind opts sigs {} with
   | error e =>
     simp only []
@@ -154,11 +155,11 @@ theorem fnsPipeline_nopanic (kind : ReceiverKind) (mode : InputMode) (hm : mode 
       exact detectDepMode_not_panic mode hm s fns (by rw [h3, ofErr_panic hc])
     | ok depMode =>
       simp only []
-      have hall := analyzeFns_all kind opts (fun tf => allPlain tf.sig.inputs = true)
-        (fun _ _ _ _ h => analyzeFn_allPlain h) sigs {} tg fns h2
-      obtain ⟨im, him⟩ := genImplBlock_total opts traitRef ind tg mode depMode subAttrs fns hall
+      have hall := analyzeFns_all_cfg kind opts (fun tf => allPlain tf.sig.inputs = true) (fun _ _ h => h)
+        (fun _ _ _ _ h => analyzeFn_allPlain h) sigs {} tg fns as h2
+      obtain ⟨im, him⟩ := genImplBlock_total opts traitRef ind tg mode depMode subAttrs _ hall
       simp only [him]
-      exact hk fns tg depMode im s
+      exact hk _ tg depMode im s
 
 theorem T_C15_nopanic (v : Variant) (attr : Toks) (item : Item) (s : String) :
     expand v attr item ≠ .panic s := by
@@ -205,7 +206,7 @@ theorem T_C15_nopanic (v : Variant) (attr : Toks) (item : Item) (s : String) :
             (fun fns tg d im => .ok (.modOut m items
               [.trait (genTraitDef (v.apply a.opts) .plain d m.attrs a.traitVis a.traitIdent tg {} fns .module), .impl im]
               [.raw (a.traitVis ++ [i "use", i m.ident] ++ pathSep ++ [i a.traitIdent, p ';'])]))
-            (by intros; simp) s
+            (by intros; simp) s (bodyFnAttrs items)
   | trait t =>
     simp only [expand]
     unfold expandTrait
@@ -238,7 +239,7 @@ theorem T_C15_nopanic (v : Variant) (attr : Toks) (item : Item) (s : String) :
             (printAttrs (m.attrs.filter (fun a => a.subKind != .asyncTrait)) ++
               (if m.unsafe_ then [i "unsafe"] else []) ++ [i "impl"] ++ m.selfTy ++ [braces (items.flatMap BodyItem.print)])
             [.impl im]))
-          (by intros; simp) s
+          (by intros; simp) s (bodyFnAttrs items)
 
 
 /-! ### documented misuses are answered with their message -/
@@ -362,17 +363,18 @@ theorem fnsPipeline_misuse (kind : ReceiverKind) (mode : InputMode) (smode : Mod
     (hmode : (mode = .module ∧ smode = .mod_) ∨ (mode = .implBlock ∧ smode = .impl))
     (opts : Opts) (hn : opts.noDepsValue = false) (sigs : List Sig) (traitRef : Toks) (ind : ImplIndirection)
     (subAttrs : List Attr) (k : List TraitFn → TraitGenerics → DepMode → GenImpl → Outcome)
-    (hne : sigs.flatMap (sigMisuses false smode) ≠ []) :
+    (hne : sigs.flatMap (sigMisuses false smode) ≠ []) (as : List (List Attr)) :
     ∃ msg ∈ sigs.flatMap (sigMisuses false smode),
       (match analyzeFns kind opts sigs {} with
        | .error e => Outcome.ofErr e
        | .ok (fns, tg) =>
-         match detectDepMode mode fns with
+         match detectDepMode mode (attachCfg as fns) with
          | .error e => Outcome.ofErr e
          | .ok depMode =>
-           match genImplBlock opts traitRef ind tg mode depMode subAttrs fns with
+           match genImplBlock opts traitRef ind tg mode depMode subAttrs (attachCfg as fns) with
            | .error site => .panic site
-           | .ok im => k fns tg depMode im) = .diag msg := by
+           | .ok im => k (attachCfg as fns) tg depMode im) = .diag msg := by
+  simp only [detectDepMode_attachCfg]
   rcases analyzeFns_misuse kind hn sigs {} with ⟨s, hs, m, hm, he⟩ | ⟨hall, fns, tg', hok, hz⟩
   · refine ⟨m, ?_, ?_⟩
     · rw [List.mem_flatMap]
@@ -494,7 +496,7 @@ theorem T_C15_misuse (v : Variant) (attr : Toks) (item : Item) (m : String) (ms 
             (fun fns tg d im => .ok (.modOut m' items
               [.trait (genTraitDef (v.apply a.opts) .plain d m'.attrs a.traitVis a.traitIdent tg {} fns .module), .impl im]
               [.raw (a.traitVis ++ [i "use", i m'.ident] ++ pathSep ++ [i a.traitIdent, p ';'])]))
-            (by rw [hfm]; simp)
+            (by rw [hfm]; simp) (bodyFnAttrs items)
           rw [hfm] at hmem
           exact ⟨msg, hmem, hres⟩
   | impl m' =>
@@ -527,7 +529,7 @@ theorem T_C15_misuse (v : Variant) (attr : Toks) (item : Item) (m : String) (ms 
             (printAttrs (m'.attrs.filter (fun a => a.subKind != .asyncTrait)) ++
               (if m'.unsafe_ then [i "unsafe"] else []) ++ [i "impl"] ++ m'.selfTy ++ [braces (items.flatMap BodyItem.print)])
             [.impl im]))
-          (by rw [hfm]; simp)
+          (by rw [hfm]; simp) (bodyFnAttrs items)
         rw [hfm] at hmem
         exact ⟨msg, hmem, hres⟩
   | trait t =>
@@ -618,17 +620,18 @@ theorem fnsPipeline_ok (kind : ReceiverKind) (mode : InputMode) (smode : Mode)
     (opts : Opts) (sigs : List Sig) (traitRef : Toks) (ind : ImplIndirection)
     (subAttrs : List Attr) (k : List TraitFn → TraitGenerics → DepMode → GenImpl → Outcome)
     (hk : ∀ fns tg d im, ∃ out, k fns tg d im = .ok out)
-    (hnone : sigs.flatMap (sigMisuses opts.noDepsValue smode) = []) :
+    (hnone : sigs.flatMap (sigMisuses opts.noDepsValue smode) = []) (as : List (List Attr)) :
     ∃ out,
       (match analyzeFns kind opts sigs {} with
        | .error e => Outcome.ofErr e
        | .ok (fns, tg) =>
-         match detectDepMode mode fns with
+         match detectDepMode mode (attachCfg as fns) with
          | .error e => Outcome.ofErr e
          | .ok depMode =>
-           match genImplBlock opts traitRef ind tg mode depMode subAttrs fns with
+           match genImplBlock opts traitRef ind tg mode depMode subAttrs (attachCfg as fns) with
            | .error site => .panic site
-           | .ok im => k fns tg depMode im) = .ok out := by
+           | .ok im => k (attachCfg as fns) tg depMode im) = .ok out := by
+  simp only [detectDepMode_attachCfg]
   have hm : mode ≠ .rawTrait := by rcases hmode with ⟨rfl, _⟩ | ⟨rfl, _⟩ <;> decide
   -- analysis succeeds and no dependency is concrete
   have hA : ∃ fns tg, analyzeFns kind opts sigs {} = .ok (fns, tg) ∧ ∀ tf ∈ fns, ∀ ty, tf.deps ≠ .concrete ty := by
@@ -677,10 +680,10 @@ theorem fnsPipeline_ok (kind : ReceiverKind) (mode : InputMode) (smode : Mode)
         exact ⟨fns, tg', hok, noConcrete_of_match sigs fns hz hc⟩
   obtain ⟨fns, tg, hok, hnc⟩ := hA
   have hdm := detectDepMode_ok_of_noConcrete mode hm fns hnc
-  have hall := analyzeFns_all kind opts (fun tf => allPlain tf.sig.inputs = true)
-    (fun _ _ _ _ h => analyzeFn_allPlain h) sigs {} tg fns hok
-  obtain ⟨im, him⟩ := genImplBlock_total opts traitRef ind tg mode .generic subAttrs fns hall
-  obtain ⟨out, hout⟩ := hk fns tg .generic im
+  have hall := analyzeFns_all_cfg kind opts (fun tf => allPlain tf.sig.inputs = true) (fun _ _ h => h)
+    (fun _ _ _ _ h => analyzeFn_allPlain h) sigs {} tg fns as hok
+  obtain ⟨im, him⟩ := genImplBlock_total opts traitRef ind tg mode .generic subAttrs _ hall
+  obtain ⟨out, hout⟩ := hk (attachCfg as fns) tg .generic im
   exact ⟨out, by simp only [hok, hdm, him, hout]⟩
 
 /-- **acceptance**: when the attribute arguments and the item are well-formed at the syn level and
@@ -750,7 +753,7 @@ theorem T_C15_accepts (v : Variant) (attr : Toks) (item : Item) (h : specMisuses
             (fun fns tg d im => .ok (.modOut m items
               [.trait (genTraitDef (v.apply a.opts) .plain d m.attrs a.traitVis a.traitIdent tg {} fns .module), .impl im]
               [.raw (a.traitVis ++ [i "use", i m.ident] ++ pathSep ++ [i a.traitIdent, p ';'])]))
-            (fun _ _ _ _ => ⟨_, rfl⟩) hfm
+            (fun _ _ _ _ => ⟨_, rfl⟩) hfm (bodyFnAttrs items)
   | impl m =>
     simp only [specMisuses] at h
     simp only [expand]
@@ -774,7 +777,7 @@ theorem T_C15_accepts (v : Variant) (attr : Toks) (item : Item) (h : specMisuses
             (printAttrs (m.attrs.filter (fun a => a.subKind != .asyncTrait)) ++
               (if m.unsafe_ then [i "unsafe"] else []) ++ [i "impl"] ++ m.selfTy ++ [braces (items.flatMap BodyItem.print)])
             [.impl im]))
-          (fun _ _ _ _ => ⟨_, rfl⟩) hfm
+          (fun _ _ _ _ => ⟨_, rfl⟩) hfm (bodyFnAttrs items)
   | trait t =>
     simp only [specMisuses] at h
     simp only [expand]
